@@ -3,6 +3,7 @@ package c17
 
 import (
 	"fmt"
+	"os"
 	"sort"
 	"strings"
 	"sync"
@@ -28,6 +29,7 @@ import (
 //	fail M                the next connection attempt (or the live connection, for drop modes) fails in mode M:
 //	                      refuse | unsendable | no-connack | denied | drop-after-K | suback-fail | drop-on-pub1
 //	kick                  the fake broker drops the live connection now
+//	reconnect             kick, then wait until online
 //	online                wait until the service is online again and answers a QoS 1 round trip
 //	stop / stopclear      Service.Stop(false) / Stop(true)
 //	start                 Service.Start
@@ -70,6 +72,7 @@ type world struct {
 	live      *fb.Link // the latest connection that was accepted with CONNACK(0)
 	liveN     int
 	seenPub   map[string]int  // payload tag -> times received
+	seenFirst map[string]bool // payload tag -> first transmission (DUP=0) received
 	seenSub   map[string]bool // topic seen in a SUBSCRIBE
 	seenUnsub map[string]bool
 	errors    []string
@@ -212,6 +215,9 @@ func (w *world) serve(l *fb.Link) {
 			case *packet.Publish:
 				w.mu.Lock()
 				w.seenPub[string(g.Message.Payload)]++
+				if !g.Dup {
+					w.seenFirst[string(g.Message.Payload)] = true
+				}
 				if g.Message.QOS > 0 {
 					if prev, dup := idsSeen[g.ID]; dup && prev == string(g.Message.Payload) && w.twice == "" {
 						w.twice = fmt.Sprintf("publish %s (id %d) was transmitted twice on connection %d (second time dup=%v)", prev, g.ID, l.N, g.Dup)
@@ -316,7 +322,7 @@ func (w *world) do(kind string, t, q int) {
 
 func runCase(c *Case) (*verdict, *world) {
 	log := memconn.NewLog()
-	w := &world{c: c, log: log, d: fb.NewDialer(log), modeOf: map[int]string{}, subs: map[string]int{}, seenPub: map[string]int{}, seenSub: map[string]bool{}, seenUnsub: map[string]bool{}, quit: make(chan struct{})}
+	w := &world{c: c, log: log, d: fb.NewDialer(log), modeOf: map[int]string{}, subs: map[string]int{}, seenPub: map[string]int{}, seenFirst: map[string]bool{}, seenSub: map[string]bool{}, seenUnsub: map[string]bool{}, quit: make(chan struct{})}
 	w.d.Plan = w.plan
 	cfg := client.NewConfigWithClientID("mem://b", "c17")
 	cfg.Dialer = w.d
@@ -339,6 +345,7 @@ func runCase(c *Case) (*verdict, *world) {
 		w.mu.Lock()
 		w.errors = append(w.errors, err.Error())
 		w.mu.Unlock()
+		time.Sleep(300 * time.Microsecond) // an application that logs its errors
 	}
 	w.svc = svc
 	w.wg.Add(1)
@@ -372,6 +379,13 @@ func runCase(c *Case) (*verdict, *world) {
 			w.failures++
 		case "kick":
 			w.kick()
+		case "reconnect":
+			w.kick()
+			if w.started {
+				if v := w.online(); v != nil {
+					return v, w
+				}
+			}
 		case "online":
 			if w.started {
 				if v := w.online(); v != nil {
@@ -447,7 +461,11 @@ func runCase(c *Case) (*verdict, *world) {
 			err = future.ErrCanceled
 		}
 		nw := opt{on: cl.kind == "sub", qos: cl.qos}
-		if err == nil {
+		// every call counts, in call order (the queue never fills up here, so no
+		// call is dropped before the dispatcher has recorded it); only an
+		// UNSUBSCRIBE that was lost on its way to a persistent session cannot be
+		// made good by re-subscribing and counts either way
+		if cl.kind == "sub" || err == nil || c.Clean {
 			allowed[cl.topic] = []opt{nw}
 		} else {
 			prev := allowed[cl.topic]
@@ -466,6 +484,10 @@ func runCase(c *Case) (*verdict, *world) {
 	seenPub := map[string]int{}
 	for k, v := range w.seenPub {
 		seenPub[k] = v
+	}
+	seenFirst := map[string]bool{}
+	for k, v := range w.seenFirst {
+		seenFirst[k] = v
 	}
 	w.mu.Unlock()
 	topics := map[string]bool{}
@@ -504,6 +526,8 @@ func runCase(c *Case) (*verdict, *world) {
 		switch {
 		case err == nil && seenPub[cl.tag] == 0 && cl.kind == "pub1": // (a QoS 0 future completes when the packet is handed to the connection)
 			return w.fail("future/completed-without-delivery", "the future of publish %s completed but the broker never received it", cl.tag), w
+		case err == future.ErrCanceled && !c.Clean && cl.kind == "pub1" && cl.epoch == w.epoch && seenFirst[cl.tag]:
+			return w.fail("future/cancelled-despite-resume", "clean session is off and the broker received QoS 1 publish %s, so the packet is recorded and was retransmitted and acknowledged through the resumed session, but its future reports cancellation", cl.tag), w
 		case err == future.ErrTimeout && !c.Clean && cl.kind == "pub1" && cl.epoch == w.epoch:
 			return w.fail("future/not-completed-after-resume", "clean session is off, the service is online and the broker acknowledges everything, but the future of QoS 1 publish %s never completed (broker received it %d times)", cl.tag, seenPub[cl.tag]), w
 		}
@@ -535,7 +559,7 @@ func genCase(rt *rapid.T) *Case {
 	n := rapid.IntRange(2, 14).Draw(rt, "n")
 	fails := 0
 	for i := 0; i < n; i++ {
-		k := rapid.SampledFrom([]string{"sub", "sub", "sub", "unsub", "pub0", "pub1", "pub1", "fail", "fail", "kick", "kick", "online", "burst", "stop", "stopclear", "start"}).Draw(rt, "kind")
+		k := rapid.SampledFrom([]string{"sub", "sub", "sub", "unsub", "pub0", "pub1", "pub1", "fail", "fail", "kick", "kick", "reconnect", "reconnect", "online", "burst", "stop", "stopclear", "start"}).Draw(rt, "kind")
 		st := Step{Kind: k}
 		switch k {
 		case "sub":
@@ -560,7 +584,7 @@ func nontrivial(c *Case) bool {
 		if st.Kind == "fail" {
 			fail = true
 		}
-		if st.Kind == "kick" || st.Kind == "stop" || st.Kind == "stopclear" {
+		if st.Kind == "kick" || st.Kind == "reconnect" || st.Kind == "stop" || st.Kind == "stopclear" {
 			kick = true
 		}
 	}
@@ -570,7 +594,7 @@ func nontrivial(c *Case) bool {
 func TestC17(t *testing.T) {
 	run := ev.Start("C17", "fault_enumeration")
 	run.ShrinkTime = "5s"
-	run.Rule("service scripts of 2-14 steps over {Subscribe/Unsubscribe on 4 topics, Publish QoS 0/1, three goroutines calling at once, push a failure mode for the next connection attempt, drop the live connection now, wait until online, Stop(false), Stop(true), Start}, clean session on and off; failure modes: dial refused, CONNECT unsendable, no CONNACK, CONNACK denied, drop after 0-3 packets (0 = during resubscribe), SUBACK with failure code, drop on the first QoS 1 publish before its PUBACK (at most 6 per script, then the fake broker is healthy). Oracle: the service comes online again (a QoS 1 probe completes within 10 s), the fake broker's subscription view for the session equals what all Subscribe/Unsubscribe calls so far imply (a call whose future was cancelled counts either way), a completed publish future implies the broker received it, with clean session off every QoS 1 publish future completes once the resumed session's retransmission is acknowledged, Stop returns, Stop(true) leaves no future pending, a later Start comes online again. non-trivial = at least one injected failure and one forced reconnect or stop; distinct by script")
+	run.Rule("service scripts of 2-14 steps over {Subscribe/Unsubscribe on 4 topics, Publish QoS 0/1, three goroutines calling at once, push a failure mode for the next connection attempt, drop the live connection now, wait until online, Stop(false), Stop(true), Start}, clean session on and off; failure modes: dial refused, CONNECT unsendable, no CONNACK, CONNACK denied, drop after 0-3 packets (0 = during resubscribe), SUBACK with failure code, drop on the first QoS 1 publish before its PUBACK (at most 6 per script, then the fake broker is healthy). Oracle: the service comes online again (a QoS 1 probe completes within 10 s), the fake broker's subscription view for the session equals what all Subscribe/Unsubscribe calls so far imply (every call counts, in call order; only an UNSUBSCRIBE lost on its way to a persistent session counts either way), a completed publish future implies the broker received it, with clean session off every QoS 1 publish future completes once the resumed session's retransmission is acknowledged, Stop returns, Stop(true) leaves no future pending, a later Start comes online again. non-trivial = at least one injected failure and one forced reconnect or stop; distinct by script")
 	run.Assume("service time-outs shortened (connect/resubscribe 40 ms, disconnect 20 ms, reconnect delay 1-4 ms)", "liveness is judged by a 10 s ceiling")
 	defer run.Finish(t)
 	exec := func(c *Case) *verdict {
@@ -597,6 +621,8 @@ func TestC17(t *testing.T) {
 		{Clean: true, Steps: []Step{{Kind: "sub", T: 0, Q: 1}, {Kind: "online"}, {Kind: "fail", M: "unsendable"}, {Kind: "fail", M: "refuse"}, {Kind: "kick"}, {Kind: "sub", T: 1, Q: 2}, {Kind: "unsub", T: 0}}},
 		{Clean: false, Steps: []Step{{Kind: "sub", T: 0, Q: 1}, {Kind: "fail", M: "drop-on-pub1"}, {Kind: "kick"}, {Kind: "pub1"}, {Kind: "online"}, {Kind: "stop"}, {Kind: "sub", T: 2}, {Kind: "start"}}},
 		{Clean: true, Steps: []Step{{Kind: "sub", T: 0, Q: 1}, {Kind: "sub", T: 1, Q: 0}, {Kind: "online"}, {Kind: "fail", M: "drop-after-0"}, {Kind: "fail", M: "no-connack"}, {Kind: "fail", M: "denied"}, {Kind: "kick"}, {Kind: "unsub", T: 1}, {Kind: "burst"}}},
+		{Clean: false, Steps: []Step{{Kind: "online"}, {Kind: "stopclear"}, {Kind: "start"}, {Kind: "online"}, {Kind: "fail", M: "drop-on-pub1"}, {Kind: "reconnect"}, {Kind: "pub1"}, {Kind: "online"}}},
+		{Clean: true, Steps: []Step{{Kind: "sub", T: 0, Q: 1}, {Kind: "sub", T: 1, Q: 1}, {Kind: "online"}, {Kind: "kick"}, {Kind: "unsub", T: 0}, {Kind: "sub", T: 2, Q: 2}, {Kind: "online"}, {Kind: "kick"}, {Kind: "sub", T: 3, Q: 0}}},
 		{Clean: true, Steps: []Step{{Kind: "online"}, {Kind: "fail", M: "suback-fail"}, {Kind: "kick"}, {Kind: "sub", T: 3, Q: 1}, {Kind: "pub1"}, {Kind: "stopclear"}, {Kind: "start"}}},
 	}
 	if shard, _ := ev.Shard(); shard == 0 {
@@ -625,8 +651,12 @@ func TestReplay(t *testing.T) {
 		t.Fatal(err)
 	}
 	for i := 0; i < 5; i++ {
-		if v, _ := runCase(&c); v != nil {
+		v, w := runCase(&c)
+		if v != nil {
 			t.Fatalf("VIOLATION reproduced: %s: %s", v.sig, v.msg)
+		}
+		if os.Getenv("VERIF_FULLLOG") != "" && i == 0 {
+			t.Log(w.log.Dump())
 		}
 	}
 	t.Log("case passes")
